@@ -28,6 +28,7 @@ type Sched struct {
 	sites  []string // site marks since last drain
 	conns  []string // cids in creation order
 	Free   bool     // free-running mode: gates do not park
+	OnSite func(id, cid, rid string)
 	ticks  int
 }
 
@@ -100,9 +101,9 @@ func (s *Sched) Go(label string, f func()) {
 
 // Site records a site mark.
 func (s *Sched) Site(id, cid, rid string) {
-	s.mu.Lock()
-	s.sites = append(s.sites, id+" "+cid+" "+rid)
-	s.mu.Unlock()
+	if f := s.OnSite; f != nil {
+		f(id, cid, rid)
+	}
 }
 
 func (s *Sched) drainSites() []string {
